@@ -62,11 +62,8 @@ func (im0 *im0data) Get(addr uint16) uint8 {
 }
 
 func (im0 *im0data) Set(addr uint16, value uint8) {
-	if int(addr-im0.start) < len(im0.data) {
-		// invalid opepration, nothing to do.
-		return
-	}
-	// delegate to base Memory for out of range.
+	// the interrupt data only stands in for instruction fetches: every
+	// write (e.g. the return address pushed by RST/CALL) goes to base Memory.
 	im0.base.Set(addr, value)
 }
 
